@@ -400,7 +400,10 @@ def fixed_cases():
             '<r><a xmlns="u1"><b xmlns="u2"/></a></r>', '<r>a<!--x-->b<?p q?>c</r>']
     maps = [None, {}, {None: "u1"}, {"": "u2"}, {"p": "u1"}, {"tei": "t"}, {"ns0": "u2"}, {"p": "u1", "q": "u2"},
             {"xmldsig": "u1"}, {"xmlsec": "u2", "xm": "u1"}, {"xmlx": "t", "x": "u2"}]
-    out = [{"route": "parse", "src": s, "mapping": mapping_json(m)} for s in srcs for m in maps]
+    amp = nsgen.AMP_URI
+    out0 = [{"route": "parse", "src": '<p:r xmlns:p="%s" xmlns:q="a&amp;b" q:k="v"><p:a/><b/></p:r>' % amp.replace("&", "&amp;"),
+             "mapping": mapping_json(m)} for m in (None, {"p": amp}, {None: amp}, {"z": "a&b"})]
+    out = out0 + [{"route": "parse", "src": s, "mapping": mapping_json(m)} for s in srcs for m in maps]
     out.append({"route": "parse", "src": '<r:root xmlns:r="u:r" xmlns:d="u:d"><d:item><plain/></d:item></r:root>',
                 "mapping": [["r", "u:r"], [None, "u:d"]]})
     api = [("tag", "", "r", [], [("text", "a"), ("text", "b"), ("tag", "u1", "x", [("u2", "k", 'v"<')], [])]),
